@@ -417,7 +417,9 @@ pub fn run_project(args: &Args, cli: &str, rep: &mut Report, pc: &ProjectCase, t
                         .filter_map(|st| st.args().get(1).and_then(|n| n.as_str()).map(|n| n.to_string()))
                         .filter(|n| expected.contains(n))
                         .collect();
-                    if observed != expected {
+                    // relative order (a scalar whose configured TypeScript text mentions its own name has no top-level alias)
+                    let expected: Vec<String> = expected.into_iter().filter(|n| observed.contains(n)).collect();
+                    if observed != expected || observed.len() < 5 {
                         rep.fail("K", "route-json-order-cli", &format!("order of the top-level type aliases of the JSON route's schema file {:?} ≠ order of __schema.types + missing built-in scalars {:?}", observed, expected), pc.to_json(None));
                     }
                 }
